@@ -648,7 +648,10 @@ def rule_metadata_from_the_given_type(repo: Repo, rep, rule: str = "R14.11") -> 
             continue
         # stores to the parameter anywhere in the function (a re-binding reaches the lookup on some path: the lookup follows the unwrapping)
         stores = [st for st in own_nodes(fn.node) if isinstance(st, (ast.Assign, ast.AnnAssign, ast.AugAssign)) and any(
-            isinstance(t, ast.Name) and t.id == name for t in (st.targets if isinstance(st, ast.Assign) else [st.target]))]
+            isinstance(t, ast.Name) and t.id in (name, p_type) for t in (st.targets if isinstance(st, ast.Assign) else [st.target]))]
+        # `alias = <the parameter>` is the alias itself, not a re-binding
+        stores = [st for st in stores if not (name != p_type and isinstance(st, (ast.Assign, ast.AnnAssign)) and isinstance(st.value, ast.Name) and st.value.id == p_type
+                                              and any(isinstance(t, ast.Name) and t.id == name for t in (st.targets if isinstance(st, ast.Assign) else [st.target])))]
         stores = [st for st in stores if getattr(st, "lineno", 0) < getattr(x, "lineno", 0)]
         if stores:
             bad = bad or (x, f"`{name}` is re-bound before the lookup (`{norm(stores[0])[:60]}`)")
